@@ -6,7 +6,8 @@
    (pattern_macro: parse, or NoParseError turned into a syntax error that indexes
    the form).  The handlers' output and CPython's validator are decided by the
    run-time oracle of props/c10.py (see DESIGN section 6: partial). *)
-From HyV Require Import Base.Text Valid.Comb Valid.CombProofs Gen.Patterns Valid.GrammarFacts.
+From Coq Require Import ZArith.
+From HyV Require Import Base.Text Valid.Comb Valid.CombProofs Gen.Patterns Valid.GrammarFacts Valid.Compile Valid.Validate Valid.CompileProofs.
 Local Open Scope nat_scope.
 
 (* For every regenerated grammar and every argument list, well-formed or not:
@@ -44,6 +45,50 @@ Print Assumptions C10_flat_arity.
 Theorem C10_progress : forall p, shrinks (run p) /\ (consumes p = true -> shrinks_strictly (run p)).
 Proof. exact run_shrinks. Qed.
 Print Assumptions C10_progress.
+
+(* ---------------------------------------------------------------- handlers, expression fragment *)
+
+(* the full statement over the model: every tree compiles to a valid AST or a user-facing error *)
+Definition C10_full : Prop := forall (mangle : text -> text) t,
+  match compile mangle t with COk e => validate e = true | CInternal => False | _ => True end.
+
+(* Proved for every mangle function and every tree over the modelled heads (literals, symbols,
+   keywords, list/tuple/set/dict displays, calls with keyword and unpacking arguments, the
+   operator macros, and/or, if, get, unpack-iterable, chainc; other heads give CUnmodelled)
+   that avoids the shapes of [good]: odd or mis-aligned dict displays, an argument-less
+   (unpack-mapping) form, #** operands of comparisons, chainc without a comparison pair.
+   The outcome is a validator-accepted AST or a user-facing error -- never an internal one. *)
+Theorem C10_compile_outcome_classes_partial : forall (mangle : text -> text) t, good t = true ->
+  match compile mangle t with COk e => validate e = true | CInternal => False | _ => True end.
+Proof. exact compile_outcome. Qed.
+Print Assumptions C10_compile_outcome_classes_partial.
+
+(* Each excluded shape refutes the full statement (witnesses replayed on the real compiler:
+   findings C10-odd-dict, C10-chainc-no-pairs, C10-compare-unpack-mapping,
+   C10-dict-unpack-in-value-position, C10-bare-unpack-mapping). *)
+Theorem C10_refuted_odd_dict : exists e, compile toy_mangle (HDict [HInt 1]) = COk e /\ validate e = false.
+Proof. exact refuted_odd_dict. Qed.
+Theorem C10_refuted_chainc_single :
+  exists e, compile toy_mangle (HExpr [sym [99;104;97;105;110;99]; x_]) = COk e /\ validate e = false.
+Proof. exact refuted_chainc_single. Qed.
+Theorem C10_refuted_compare_unpack_mapping :
+  exists e, compile toy_mangle (HExpr [sym [61]; x_; x_; HExpr [HSym s_unpack_mapping; x_]]) = COk e /\ validate e = false.
+Proof. exact refuted_compare_unpack_mapping. Qed.
+Theorem C10_refuted_dict_unpack_misaligned :
+  exists e, compile toy_mangle (HDict [x_; HExpr [HSym s_unpack_mapping; x_]; x_]) = COk e /\ validate e = false.
+Proof. exact refuted_dict_unpack_misaligned. Qed.
+Theorem C10_refuted_bare_unpack_mapping : compile toy_mangle (HList [HExpr [HSym s_unpack_mapping]]) = CInternal.
+Proof. exact refuted_bare_unpack_mapping. Qed.
+Print Assumptions C10_refuted_bare_unpack_mapping.
+
+(* a Python exception inside a macro is wrapped into a user-facing error (MacroExceptions) *)
+Example C10_internal_error_inside_macro_is_user_facing :
+  compile toy_mangle (HExpr [sym [43]; HInt 1; HList [HExpr [HSym s_unpack_mapping]]]) = CUser.
+Proof. exact bare_unpack_mapping_inside_macro. Qed.
+
+Example C10_good_nontrivial :
+  good (HExpr [sym [102]; HExpr [sym [43]; HInt 1; HExpr [sym [60]; x_; HInt 2; HInt 3]]; HKw (t_of [107]); HDict [HStr []; x_]]) = true.
+Proof. exact good_example. Qed.
 
 (* non-vacuity: the table holds an operator grammar times(2, Inf, FORM) and a structured (non-flat) grammar *)
 Example C10_table_nontrivial :
